@@ -4,8 +4,8 @@ From GV.Model Require Export Reset.
 Import ListNotations.
 Open Scope Z_scope.
 
-Definition countb (f : obj -> bool) (g : grid) : Z := Z.of_nat (length (filter f (concat g))).
 Definition cells_at (g : grid) (f : obj -> bool) : list pos := filter (fun p => f (lookupH g p)) (gpositions g).
+Definition countb (f : obj -> bool) (g : grid) : Z := Z.of_nat (length (cells_at g f)).
 Definition border_walls (g : grid) : bool := forallb (fun p => is_ty ty_Wall (lookupH g p)) (apositions_border (garea g)).
 Definition agent_ok (s : state) : bool :=
   in_grid (sgrid s) (spos s) && obj_beq (sheld s) NoneObj &&
